@@ -196,6 +196,21 @@ def run(ctx):
                          inp, observed=oc)
         elif not np.isfinite(L).all() or not (np.abs(L.T.dot(L) - M).max() <= 2 * t):
           ctx.fail_input('components_from_metric_tol', 'L^T L differs from M by more than the tolerance', inp, observed=L.tolist())
+  # ---- 3b'. tol = 0 is a tolerance like any other: an eigenvalue below -0, however small, is rejected (exact spectra:
+  # diagonal matrices, and block matrices [[1,1],[1,1]] + (-e) whose eigenvalues 0, 2, -e LAPACK returns exactly decoupled)
+  from metric_learn._util import _check_sdp_from_eigen
+  for e_neg in (1e-18, 1e-30, 2.0 ** -60, 1e-300):
+    for w0 in ([1.98, -e_neg], [3.0, 0.0, -e_neg], [1e6, 1.0, -e_neg]):
+      wv = np.array(w0)
+      ctx.count('components_from_metric_tol', 2)
+      oc0, _ = outcome(lambda: _check_sdp_from_eigen(wv, tol=0))
+      oc1, _ = outcome(lambda: components_from_metric(np.diag(wv), tol=0.0))
+      if oc0 != 'NonPSDError' or oc1 != 'NonPSDError':
+        ctx.fail_input('components_from_metric_tol', 'an eigenvalue below -tol with the explicit tol = 0 is not rejected with NonPSDError',
+                       dict(spectrum=wv.tolist(), tol=0, M=np.diag(wv).tolist()), observed=dict(_check_sdp_from_eigen=oc0, components_from_metric=oc1))
+      ocd, _ = outcome(lambda: _check_sdp_from_eigen(wv))          # the default tolerance is relative: the same spectrum passes
+      if ocd != 'ok':
+        ctx.fail_input('components_from_metric_tol', 'a negative eigenvalue far inside the default tolerance is rejected', dict(spectrum=wv.tolist()), observed=ocd)
   # ---- 3c. an explicit tolerance only concerns NEGATIVE eigenvalues: a singular PSD matrix (Cholesky fails) whose positive
   # eigenvalues include one below the caller's tol is still factored exactly
   for i in range(120 if thorough else 30):
